@@ -62,9 +62,16 @@ def markup_text():
     return st.builds(lambda t, a: t.replace("%s", a) if "%s" in t else t, st.sampled_from(MARKUP_TEMPLATES), inner)
 
 
+def edge_ws_text():
+    """texts that begin and / or end with line breaks or blanks (first / last character of an element's content)"""
+    ws = st.sampled_from(["\n", "\r\n", "\r", " ", "\t", "\n\n", "\n ", "\f", "\x0b", "\u2028", "\xa0"])
+    return st.builds(lambda a, s, b, which: (a if which != 1 else "") + s + (b if which != 0 else ""), ws, mixed_text(3), ws, st.integers(0, 2))
+
+
 def any_text():
-    """Full Unicode, metacharacter-dense; about one in thirteen is long (64-700 characters), one in thirteen a complete markup construct."""
-    return st.one_of(hot_text(), uni_text(), mixed_text(), hot_text(), uni_text(), mixed_text(), hot_text(), uni_text(), mixed_text(), hot_text(), mixed_text(), long_text(), markup_text())
+    """Full Unicode, metacharacter-dense; about one in fourteen is long (64-700 characters), one in fourteen a complete
+    markup construct, one in fourteen begins / ends with a line break or blank."""
+    return st.one_of(hot_text(), uni_text(), mixed_text(), hot_text(), uni_text(), mixed_text(), hot_text(), uni_text(), mixed_text(), hot_text(), mixed_text(), long_text(), markup_text(), edge_ws_text())
 
 
 def safe_text(min_size: int = 0, max_size: int = 6):
